@@ -5,7 +5,10 @@ package resolver
 import (
 	"context"
 	"net/http"
+	"reflect"
+	"sync"
 	"time"
+	"unsafe"
 
 	"github.com/nextdns/nextdns/resolver/query"
 )
@@ -43,18 +46,45 @@ func VerifCacheTruncEntry(v interface{}) bool {
 	return ok
 }
 
-// VerifCacheShiftLastMod moves every recorded configuration change time back by d.
+// VerifCacheShiftLastMod moves every recorded configuration change time back by d.  The table is reached by
+// reflection so that the harness keeps building when its representation changes (map under a mutex, sync.Map); the
+// caller is the only goroutine using the resolver at that moment.
 func (r *DNS) VerifCacheShiftLastMod(d time.Duration) {
-	r.DOH.mu.Lock()
-	for u, t := range r.DOH.lastModified {
-		r.DOH.lastModified[u] = t.Add(-d)
+	f := reflect.ValueOf(&r.DOH).Elem().FieldByName("lastModified")
+	if !f.IsValid() {
+		panic("verif: resolver.DOH has no field lastModified")
 	}
-	r.DOH.mu.Unlock()
+	f = reflect.NewAt(f.Type(), unsafe.Pointer(f.UnsafeAddr())).Elem()
+	switch m := f.Addr().Interface().(type) {
+	case *map[string]time.Time:
+		for u, t := range *m {
+			(*m)[u] = t.Add(-d)
+		}
+	case *sync.Map:
+		m.Range(func(k, v interface{}) bool {
+			if t, ok := v.(time.Time); ok {
+				m.Store(k, t.Add(-d))
+			}
+			return true
+		})
+	default:
+		panic("verif: unsupported representation of DOH.lastModified: " + f.Type().String())
+	}
 }
 
-// VerifCacheHoldMu takes the DoH resolver's own mutex and returns the function releasing it
+// VerifCacheHoldMu takes the DoH resolver's own mutex, when it has one, and returns the function releasing it
 // (burst admission of the cache area: queries started meanwhile enter the resolver together).
 func (r *DNS) VerifCacheHoldMu() func() {
-	r.DOH.mu.Lock()
-	return r.DOH.mu.Unlock
+	f := reflect.ValueOf(&r.DOH).Elem().FieldByName("mu")
+	if f.IsValid() {
+		switch mu := reflect.NewAt(f.Type(), unsafe.Pointer(f.UnsafeAddr())).Interface().(type) {
+		case *sync.RWMutex:
+			mu.Lock()
+			return mu.Unlock
+		case *sync.Mutex:
+			mu.Lock()
+			return mu.Unlock
+		}
+	}
+	return func() {}
 }
